@@ -225,8 +225,11 @@ def clip_predicate_rule(ctx, R):
             e = ExprBuilder(cb).place(0, ())
             cm = as_cmp(e, True)
             n += 1
-            ok = cm is not None and ((cm[2].kind == 'const' and cm[2].const_value() in ('0.0', '0', '-0.0')) or
-                                     (cm[1].kind == 'const' and cm[1].const_value() in ('0.0', '0', '-0.0')))
+            def is_zero(x):
+                x = x.strip() if x.kind == 'call' and x.name.rsplit('::', 1)[-1] != 'zero' else x
+                return (x.kind == 'const' and x.const_value() in ('0.0', '0', '-0.0')) or (
+                    x.kind == 'call' and x.name.rsplit('::', 1)[-1] == 'zero' and not x.args)   # num_traits::Zero::zero()
+            ok = cm is not None and (is_zero(cm[2]) or is_zero(cm[1]))
             ctx.check(ok, R, cb, 'clip-predicate-is-a-sign-test:' + cb.npath.rsplit('::', 1)[-1], repr(e)[:120],
                       'the clipping predicate %s decides by %r: expected a comparison with the constant 0 (a tolerance '
                       'reports an intersection for boxes that do not overlap)' % (cb.npath, e))
